@@ -2,7 +2,7 @@
 //   ops a1 a2 a3 b1 b2 b3           -> eq lt ne gt le ge canRead canWrite   (a is *this / the library)
 //   idx a1 a2 a3 i                  -> a[i]
 //   open x y z <rw|ro|ow> <force 0|1> <defect>
-//        defect: none | noformat | badformat | noversion | noid | ver2 | ver4 | plainh5 | nonh5
+//        defect: none | noformat | badformat | fmt=s:<hex> (format attribute set to that string) | noversion | noid | ver2 | ver4 | plainh5 | nonh5
 #include "common.hpp"
 #include <hdf5.h>
 #include <unistd.h>
@@ -79,6 +79,7 @@ static std::string handle(const std::vector<std::string> &t) {
             set_version(root, ver);
             if (defect == "noformat") H5Adelete(root, "format");
             if (defect == "badformat") set_str_attr(root, "format", "xin");
+            if (defect.compare(0, 4, "fmt=") == 0) set_str_attr(root, "format", dec_str(defect.substr(4)));
             if (defect == "noversion") H5Adelete(root, "version");
             if (defect == "noid") H5Adelete(root, "id");
             H5Gclose(root);
